@@ -42,6 +42,36 @@ def run_cell(chk, spec):
 	judge_cell(chk, L, R, spec)
 
 
+def run_gather_after_check(chk, spec):
+	"""a table DERIVED (rows gathered with repeats, stacked, copied and edited) from one whose keys an earlier call has verified unique is judged on its own keys"""
+	import random
+	rng = random.Random(spec["seed"])
+	L, R = common.mk_table(spec["left"]), common.mk_table(spec["right"])
+	first = dict(spec, how=spec["how"], expect=spec["first_expect"], stratum="cell-history", variant="before-derivation", key_mode=spec["key_mode"])
+	judge_cell(chk, L, R, first)
+	side = spec["side"]
+	T = R if side == "right" else L
+	n = len(T)
+	d = spec["derive"]
+	if n == 0:
+		return
+	o = call({"gather": lambda: T[Vector([rng.randrange(n) for _ in range(n + 1)])], "gather-first-twice": lambda: T[Vector([0, 0] + list(range(1, n)))], "stack": lambda: T << T,
+		"copy": lambda: T.copy(), "slice": lambda: T[0:n], "mask": lambda: T[[True] * n]}[d])
+	if not o.ok or not isinstance(o.value, Table) or len(o.value.cols()) != len(T.cols()):
+		chk.skip("gather-unavailable")
+		return
+	T2 = o.value
+	if d == "stack":
+		for j, nm in enumerate(T.column_names()):
+			call(lambda: setattr(T2.cols()[j], "name", nm))
+	if T2.column_names() != T.column_names():
+		chk.skip("gather-lost-names")
+		return
+	for how2, exp2 in spec["then"]:
+		s2 = dict(spec, how=how2, expect=exp2, stratum="cell-history", variant=f"after-{d}", key_mode=spec["key_mode"])
+		judge_cell(chk, L if side == "right" else T2, T2 if side == "right" else R, s2)
+
+
 def run_prefix(chk, spec):
 	"""several joins against the SAME right table whose key lists are prefix-related (x, y) / (x): each call is judged on its own keys"""
 	L, R = common.mk_table(spec["left"]), common.mk_table(spec["right"])
@@ -90,6 +120,11 @@ def judge_cell(chk, L, R, spec):
 		a, b = a[0], b[0]
 	if isinstance(expect, str) and spec.get("dynamic_expect", True):
 		expect = "".join(list(expect))      # equal to the documented word but built at run time (read from a file, a CLI, a config), not the interned literal
+	if spec.get("prefingerprint"):
+		# every fingerprint that can be cached is cached before the call
+		for T in (L, R):
+			call(T.fingerprint)
+			[call(c.fingerprint) for c in T.cols()]
 	o = call(fn_of(L, how), R, a, b, expect=expect)
 	stratum = spec.get("stratum", "cell")
 	chk.judged(stratum, ("cell", how, expect, lu, ru, spec.get("variant")))
@@ -137,7 +172,8 @@ def run_invalid(chk, spec):
 			f"{spec['how']} join with expect={spec['expect']!r} returned {short(o.value, 100)}")
 
 
-RUNNERS = {"prefix": run_prefix, "cell": run_cell, "invalid": run_invalid, "cell_history": run_cell_history}
+from . import c09 as _c09
+RUNNERS = {"gather_after_check": run_gather_after_check, "repeated_key_column": _c09.run_repeated_key_column, "prefix": run_prefix, "cell": run_cell, "invalid": run_invalid, "cell_history": run_cell_history}
 RUNNERS["recompute"] = recompute.runner("C11")
 
 
@@ -223,6 +259,36 @@ def run(chk):
 				s = spec_from_keys(rng, lk, rk, how, bad, "invalid")
 				s["lon"], s["ron"] = s["lon"][0], s["ron"][0]
 				chk.case("invalid", s, "invalid-expect")
+	for how in HOWS:
+		_c09.repeated_key_cases(chk, how, 40 if chk.quick() else 300, expects=EXPECTS)
+	# key columns that differ only where hash() cannot tell (equal fingerprints), every fingerprint cached beforehand
+	for how in HOWS:
+		for expect in EXPECTS:
+			for lk, rk in (([-1, -1, 5], [-1, -2, 5]), ([-1, -2, 5], [-1, -1, 5]), ([0, 0, 7], [0, 2 ** 61 - 1, 7]), ([-1, -2], [-2, -1]), ([-2, -2, -1], [-2, -1, -1])):
+				sp = spec_from_keys(rng, [lk], [rk], how, expect, "equal-fingerprints")
+				sp["prefingerprint"] = True
+				chk.case("cell", sp, "cell-equal-fingerprints")
+	# an object-typed payload column whose odd cell sits in one row: accepted calls return exactly the many_to_many result (values AND dtypes)
+	for _ in range(80 if chk.quick() else 500):
+		how = rng.choice(HOWS)
+		lk, rk = realise(rng, True, True, rng.choice(["matched", "unmatched"]), "int")
+		sp = spec_from_keys(rng, lk, rk, how, rng.choice(EXPECTS), "mixed-payload")
+		for side in (sp["left"], sp["right"]):
+			n = len(side["cols"][0])
+			j = rng.randrange(n)
+			side["names"].append("mix")
+			side["cols"].append([("x" if i == j else i) for i in range(n)])
+		chk.case("cell", sp, "cell-mixed-payload")
+	# tables derived from a table whose keys an earlier call has verified
+	for _ in range(100 if chk.quick() else 700):
+		how = rng.choice(HOWS)
+		lk, rk = realise(rng, True, True, rng.choice(["matched", "unmatched", "none"]), rng.choice(["int", "str"]))
+		sp = spec_from_keys(rng, lk, rk, how, "one_to_one", "derived")
+		fe = rng.choice(["one_to_one", "many_to_one", "one_to_many"])
+		side = rng.choice(["right", "left"]) if fe == "one_to_one" else ("right" if fe == "many_to_one" else "left")      # the side whose keys the first call verifies
+		sp.update({"first_expect": fe, "side": side, "derive": rng.choice(["gather", "gather-first-twice", "gather-first-twice", "stack", "copy", "slice", "mask"]),
+			"then": [(how, fe), (rng.choice(HOWS), rng.choice(EXPECTS))], "seed": rng.randrange(10**9), "key_mode": rng.choice(["name", "vector"])})
+		chk.case("gather_after_check", sp, "cell-derived")
 	# prefix-related key lists against one long-lived right table
 	for _ in range(60 if chk.quick() else 400):
 		xs = [1, 1, 2, 2, 3]
